@@ -64,11 +64,12 @@ class Msg:
 
 
 class Schema:
-    def __init__(s, msgs):
+    def __init__(s, msgs, syntax=2):
         s.msgs = msgs
+        s.syntax = syntax
 
     def lines(s):
-        out = ['schema %d' % len(s.msgs)]
+        out = ['schema %d %d' % (len(s.msgs), s.syntax)]
         for i, m in enumerate(s.msgs):
             out.append('msg %d %s %d %d %d' % (i, m.name, len(m.fields), m.initmode, m.ngroups))
             out += [f.line() for f in m.fields]
@@ -102,7 +103,12 @@ F64 = [0x0, 0x8000000000000000, 0x3ff0000000000000, 0xbff0000000000000, 0x7ff000
        0x4340000000000001, 0x3fb999999999999a]
 
 
+ENUM_VALUES = [0, 1, 2, 5, 127, 128, 255, 16383, 16384, -1, -2, -128, -129, 2147483647, -2147483648, 1000000]
+
+
 def rand_scalar(rng, t):
+    if t == T_ENUM:
+        return rng.choice(ENUM_VALUES) & 0xffffffff
     if t == T_BOOL:
         return rng.choice([0, 1, 1, 0, 1])
     if t == T_FLOAT:
@@ -172,6 +178,12 @@ def rand_ids(rng, n):
 
 
 def rand_default(rng, t):
+    if t == T_FLOAT:
+        v = rand_scalar(rng, t)
+        return ('V', 0x7fc00000 if (v & 0x7f800000) == 0x7f800000 and (v & 0x7fffff) else v)   # .proto text cannot carry a NaN payload
+    if t == T_DOUBLE:
+        v = rand_scalar(rng, t)
+        return ('V', 0x7ff8000000000000 if (v & 0x7ff0000000000000) == 0x7ff0000000000000 and (v & 0xfffffffffffff) else v)
     if t == T_STRING:
         return ('S', rand_bytes(rng, rng.choice([0, 1, 3, 8]), nonul=True))
     if t == T_BYTES:
@@ -184,8 +196,9 @@ def rand_default(rng, t):
 def rand_schema(rng, nmsgs=None, max_fields=8, allow_generic=True, syntax=None, big=False, types=None):
     nmsgs = nmsgs or rng.choice([1, 1, 2, 2, 3, 4])
     msgs = []
+    syntax = syntax or rng.choice([2, 2, 3])
     for mi in range(nmsgs):
-        syn = syntax or rng.choice([2, 2, 3])
+        syn = syntax
         r = rng.random()
         if big and r < 0.15:
             nf = rng.choice([17, 33, 129, 130, 200])
@@ -244,11 +257,11 @@ def rand_schema(rng, nmsgs=None, max_fields=8, allow_generic=True, syntax=None, 
             elif syn == 2 and label != L_REP and t != T_MESSAGE and rng.random() < 0.35 and not (initmode == 1 and g >= 0):
                 dflt = rand_default(rng, t)
             elif syn == 2 and t == T_ENUM and label != L_REP and g < 0 and initmode == 0 and rng.random() < 0.3:
-                init = rng.choice([1, 5, 0xffffffff, 0x80000000])
+                init = rng.choice([1, 5, 0xffffffff, 0x80000000])   # first declared value of some enum
             fields.append(Field('f%d' % ids[j] if rng.random() < 0.7 else rng.choice(['a', 'b', 'ab', 'abc', 'B', 'zz', '_x']) + str(ids[j]),
                                 ids[j], label, t, flags, g, sub, dflt, init))
         msgs.append(Msg('M%d' % mi, fields, initmode, ngroups, syn))
-    return Schema(msgs)
+    return Schema(msgs, syntax)
 
 
 # ------------------------------------------------------------------------------------------------
@@ -284,7 +297,11 @@ def init_val(f):
 def rand_val(rng, schema, f, depth, big=False, budget=None):
     t = f.type
     if t == T_STRING:
-        return ('str', 'S', rand_bytes(rng, rand_len(rng, big), nonul=True))
+        n = rand_len(rng, big)
+        if getattr(schema, 'syntax', 2) == 3 or rng.random() < 0.5:
+            # proto3 strings must be valid UTF-8 for the reference implementation: keep to ASCII
+            return ('str', 'S', bytes(rng.randrange(1, 128) for _ in range(n)))
+        return ('str', 'S', rand_bytes(rng, n, nonul=True))
     if t == T_BYTES:
         n = rand_len(rng, big)
         if n == 0:
@@ -727,10 +744,10 @@ def encode(schema, msg, rng=None, knobs=None):
     knobs = knobs or {}
     recs = encode_records(schema, msg, rng, knobs)
     if knobs.get('shuffle') and rng is not None:
-        # shuffle while keeping the relative order of records of the same field number... we only
-        # know record bytes; keep it simple: shuffle blocks of distinct fields by tagging
-        m = schema.msgs[msg['ty']]
-        recs = shuffle_keep_same_field_order(recs, rng)
+        # any interleaving that keeps the relative order of records of the same field number, and of
+        # the unknown fields among themselves (their order is observable), is an equivalent encoding
+        known = {f.id for f in schema.msgs[msg['ty']].fields}
+        recs = shuffle_keep_same_field_order(recs, rng, known)
     return b''.join(recs)
 
 
@@ -745,8 +762,10 @@ def first_varint(b):
     raise ValueError('unterminated')
 
 
-def shuffle_keep_same_field_order(recs, rng):
+def shuffle_keep_same_field_order(recs, rng, known=None):
     keyed = [(first_varint(r)[0] >> 3, r) for r in recs]
+    if known is not None:
+        keyed = [(k if k in known else -1, r) for k, r in keyed]
     by_field = {}
     order = []
     for k, r in keyed:
@@ -757,3 +776,50 @@ def shuffle_keep_same_field_order(recs, rng):
     for k in order:
         out.append(by_field[k].pop(0))
     return out
+
+
+# ------------------------------------------------------------------------------------------------
+# semantic view in the JSON shape printed by harness/ref_harness.cc
+# ------------------------------------------------------------------------------------------------
+def canon_unknown(tag, wt, data):
+    data = bytes(data)
+    if wt == 0:
+        return [tag, 0, first_varint(data)[0] & 0xffffffffffffffff]
+    if wt == 1:
+        return [tag, 1, int.from_bytes(data[:8], 'little')]
+    if wt == 5:
+        return [tag, 5, int.from_bytes(data[:4], 'little')]
+    if wt == 2:
+        n, k = first_varint(data)
+        return [tag, 2, data[k:k + n].hex()]
+    return [tag, wt, 0]
+
+
+def jval(schema, f, v):
+    if isinstance(v, bytes):
+        return v.hex()
+    if isinstance(v, tuple):       # nested sem
+        return sem_to_json(schema, f.sub, v)
+    return v
+
+
+def sem_to_json(schema, ty, sm):
+    fields, unk = sm
+    m = schema.msgs[ty]
+    out = {}
+    for f in m.fields:
+        e = fields[f.id]
+        k = e[0]
+        if k == 'rep':
+            out[str(f.id)] = ['rep', [jval(schema, f, x) for x in e[1]]]
+        elif k == 'unsel':
+            out[str(f.id)] = ['unsel']
+        elif k == 'absent' and f.type == T_MESSAGE:
+            out[str(f.id)] = ['absent', None]
+        else:
+            out[str(f.id)] = [k, jval(schema, f, e[1]) if e[1] is not None else (None if f.type == T_MESSAGE else '')]
+    return {'f': out, 'u': [canon_unknown(*u) for u in unk]}
+
+
+def sem_json(schema, msg):
+    return sem_to_json(schema, msg['ty'], sem(schema, msg))
